@@ -7,8 +7,8 @@ import os
 import core
 
 PLAN = {
-    "quick": [("random", 60), ("clean", 8), ("empty", 2), ("neg", 10), ("flags", 10)],
-    "thorough": [("random", 1200), ("clean", 60), ("empty", 6), ("neg", 100), ("flags", 100)],
+    "quick": [("random", 60), ("clean", 8), ("empty", 2), ("neg", 10), ("flags", 10), ("edge", 20)],
+    "thorough": [("random", 1200), ("clean", 60), ("empty", 6), ("neg", 100), ("flags", 100), ("edge", 200)],
 }
 RUNS_PER_JOB = {"quick": 5, "thorough": 25}
 
